@@ -38,6 +38,11 @@ def gen_world(rng, max_files=3, allow_include=True, nprobes=(3, 10), plain_prefi
     for f in allf:
         for _ in range(rng.randint(1, 4)):
             nm = "%s%s%d" % (rng.choice(["L", "lab", "T", "q.x"]), f.name[0] + f.name[1:].split(".")[0][-1], len(labels))
+            if rng.random() < 0.15:
+                # names that look like registers / accumulators / mnemonic fragments but are ordinary symbols
+                cand = rng.choice(["f0", "f1", "f2", "f3", "f4", "f5", "f6", "ac6", "ac7", "r8", "r9", "r10", "sp1", "pc2", "fp", "a0", "x", "f1x", "R8", "F2"])
+                if cand.lower() not in {n.lower() for n, _ in labels}:
+                    nm = cand
             labels.append((nm, f))
             f.items.append(("label", nm))
     # equates: a name for an address plus a number, defined anywhere (before or after the label, in any file)
@@ -174,6 +179,7 @@ PROBE_SIZE = 6       # every probe is padded with nops to six bytes
 TEMPLATES = [
     ("branch",), ("branch",), ("jmp",), ("jsr",), ("movrel",), ("movto",), ("tstdef",), ("imm",), ("abs",), ("cmp2",), ("inc",),
     ("word",), ("worddiff",), ("wordplus",), ("movrelplus",), ("idx",), ("idxdef",), ("idxdefneg",),
+    ("fpload",), ("fpstore",), ("fpmul",),
 ]
 
 
@@ -242,6 +248,22 @@ def _make_probe(rng, tmpl, pa, l1, l2, addr):
         else:
             p["decode"] = "mov 2 idx:%d:%d:%d reg:%d" % (mode, rn, val & 0xFFFF, r)
             p["abs_words"] = [1]
+    elif k in ("fpload", "fpstore", "fpmul"):
+        ac = rng.randrange(4)
+        size = 4
+        if k == "fpload":
+            mn = rng.choice(["ldf", "ldd"])
+            p["src"] = "%s %s, ac%d" % (mn, l1, ac)
+            p["decode"] = "ldf 2 rel:%d ac:%d" % (rel(pa + 2, t1), ac)
+        elif k == "fpstore":
+            mn = rng.choice(["stf", "std"])
+            p["src"] = "%s ac%d, %s" % (mn, ac, l1)
+            p["decode"] = "stf 2 ac:%d rel:%d" % (ac, rel(pa + 2, t1))
+        else:
+            mn = rng.choice(["mulf", "muld"])
+            p["src"] = "%s %s, ac%d" % (mn, l1, ac)
+            p["decode"] = "mulf 2 rel:%d ac:%d" % (rel(pa + 2, t1), ac)
+        p["rel"] = [(pa + 2, t1, False)]
     elif k == "cmp2":
         p["src"], size = "cmp %s, %s" % (l1, l2), 6
         p["decode"] = "cmp 3 rel:%d rel:%d" % (rel(pa + 2, t1), rel(pa + 4, t2))
